@@ -85,7 +85,7 @@ def classify_arith(clsname: str, cls: ast.ClassDef, dunder: str):
             if CLS_TAG[c] not in classes:
                 classes.append(CLS_TAG[c])
             continue
-        raise TranslationError(f"{clsname}.{dunder}: return outside the subset: {ast.unparse(r)[:80]}")
+        raise TranslationError(f"{clsname}.{dunder}: return outside the subset: {ast.unparse(r)[:80]!r}")
     return "returns", classes
 
 
